@@ -427,9 +427,18 @@ var fifoMu sync.Mutex
 func runStdio(sc scen, dir string) (observation, []problem) {
 	var probs []problem
 	q := newFifo(dir)
-	base := takeCensus() // after the FIFO (its reader goroutine and fd belong to the harness)
+	goPath := q.path + "-go"
+	if err := syscall.Mkfifo(goPath, 0o600); err != nil {
+		panic(err)
+	}
+	goF, err := os.OpenFile(goPath, os.O_RDWR, 0)
+	if err != nil {
+		panic(err)
+	}
+	defer func() { goF.Close(); os.Remove(goPath) }()
+	base := takeCensus() // after the FIFOs (their reader goroutine and fds belong to the harness)
 	defer q.close()
-	cs := childScript{Need: sc.N, Answered: sc.Answered, Fifo: q.path, Off: -1}
+	cs := childScript{Need: sc.N, Answered: sc.Answered, Fifo: q.path, Go: goPath, Off: -1}
 	switch sc.Fault {
 	case "none":
 		cs.Fault = "none"
@@ -483,14 +492,30 @@ func runStdio(sc scen, dir string) (observation, []problem) {
 		nonces = append(nonces, nonce)
 		go func() { results <- callTool(ctx, cl.CallTool, nonce) }()
 	}
-	// the child reports "ready" once it has all N requests and has written what the script says
+	// the child reports "answered" once it has all N requests and has answered the first ones; it goes on (partial answer,
+	// "ready", fault) when the parent says so: after the answered calls have returned
 	var t0 time.Time
+	res := map[string]callRes{}
 	if sc.Fault != "none" {
 		ready := false
 		barrier := time.After(5 * time.Second)
 		for !ready {
 			select {
 			case l := <-q.ch:
+				if strings.HasPrefix(l, "answered ") {
+					for len(res) < sc.Answered {
+						select {
+						case r := <-results:
+							res[r.nonce] = r
+						case <-barrier:
+							syscall.Kill(pid, syscall.SIGKILL)
+							cancel()
+							go cl.Close()
+							return observation{}, []problem{{fp: "calls:harness:answered_barrier", what: "an answered call did not return"}}
+						}
+					}
+					goF.WriteString("go\n")
+				}
 				if strings.HasPrefix(l, "ready ") {
 					var ns int64
 					fmt.Sscanf(l, "ready %d", &ns)
@@ -517,7 +542,6 @@ func runStdio(sc scen, dir string) (observation, []problem) {
 	case sc.Ctx == "timeout":
 		t0 = issued.Add(timeout)
 	}
-	res := map[string]callRes{}
 	hung := map[string]bool{}
 	hangT := time.After(hangCeiling)
 collect:
